@@ -291,9 +291,11 @@ Arguments executed {AS}. Arguments learned {AS}. Arguments sent {AS}. Arguments 
 (* One state type covers both agents of the harness:
    scripted : the k-th call of policy returns script[k mod len]; learn only logs;
    greedy   : MABEpsilonGreedy (agents/epsilon_greedy.py:56-86) with constant step size alpha and the random draws of
-              policy() replaced by a recorded list (explore?, choice), used cyclically. *)
+              policy() replaced by a recorded list (explore?, choice), used cyclically; ag_alpha = -1 selects the
+              sample-average step 1 / actions_count[action] (epsilon_greedy.py `get_step_size`), the count being
+              incremented by learn before the step size is read (ag_counts). *)
 Record cagent := mkag { ag_script : list nat; ag_k : nat; ag_greedy : bool; ag_alpha : Q; ag_q : list Q;
-                        ag_draws : list (bool * nat); ag_n : nat }.
+                        ag_draws : list (bool * nat); ag_n : nat; ag_counts : list nat }.
 
 Fixpoint argmax_from (i besti : nat) (bestv : Q) (l : list Q) : nat :=
   match l with [] => besti | x :: r => if Qle_bool x bestv then argmax_from (S i) besti bestv r else argmax_from (S i) i x r end.
@@ -303,8 +305,15 @@ Definition argmax (l : list Q) : nat := match l with [] => 0 | x :: r => argmax_
 Fixpoint upd_nth (i : nat) (f : Q -> Q) (l : list Q) : list Q :=
   match l, i with [], _ => [] | x :: r, 0 => f x :: r | x :: r, S j => x :: upd_nth j f r end.
 
+Fixpoint upd_nth_nat (i : nat) (l : list nat) : list nat :=
+  match l, i with [], _ => [] | x :: r, 0 => S x :: r | x :: r, S j => x :: upd_nth_nat j r end.
+
+(* epsilon_greedy.py get_step_size: `1 / self.actions_count[action] if self.alpha == -1 else self.alpha` *)
+Definition c_step_size (g : cagent) (cnt : nat) : Q :=
+  if Qeq_bool (ag_alpha g) (-1) then (1 # Pos.of_nat cnt)%Q else ag_alpha g.
+
 Definition c_policy (g : cagent) : nat * cagent :=
-  let g' := mkag (ag_script g) (S (ag_k g)) (ag_greedy g) (ag_alpha g) (ag_q g) (ag_draws g) (ag_n g) in
+  let g' := mkag (ag_script g) (S (ag_k g)) (ag_greedy g) (ag_alpha g) (ag_q g) (ag_draws g) (ag_n g) (ag_counts g) in
   if ag_greedy g then
     let d := nth (Nat.modulo (ag_k g) (length (ag_draws g))) (ag_draws g) (false, 0) in
     ((if fst d then Nat.modulo (snd d) (ag_n g) else argmax (ag_q g)), g')
@@ -312,7 +321,9 @@ Definition c_policy (g : cagent) : nat * cagent :=
 
 Definition c_learn (g : cagent) (a : nat) (r : Q) : cagent :=
   if ag_greedy g then
-    mkag (ag_script g) (ag_k g) true (ag_alpha g) (upd_nth a (fun x => Qred (x + ag_alpha g * (r - x))%Q) (ag_q g)) (ag_draws g) (ag_n g)
+    let cnts := upd_nth_nat a (ag_counts g) in
+    let st := c_step_size g (nth a cnts 0) in
+    mkag (ag_script g) (ag_k g) true (ag_alpha g) (upd_nth a (fun x => Qred (x + st * (r - x))%Q) (ag_q g)) (ag_draws g) (ag_n g) cnts
   else g.
 
 (* ====================================================================== correspondence case *)
